@@ -140,7 +140,9 @@ def run(rep):
             frames.append(Agg('struct', 'TrampolineFrame', {
                 T['registers']: VecV([jsv('f%d_r0' % j)], 'JsValue'), T['this_value']: jsv('f%d_this' % j), T['saved_env_stack']: VecV([gc('f%d_env' % j)]),
                 T['saved_interp_env']: gc('f%d_ienv' % j), T['current_constructor']: opt('f%d_ctor' % j, 'Gc<JsObject>', gc('f%d_ctorobj' % j)),
-                T['construct_new_obj']: opt('f%d_new' % j, 'Gc<JsObject>', gc('f%d_newobj' % j)), T['vm_call_stack']: VecV(()), T['try_stack']: VecV(()),
+                T['construct_new_obj']: opt('f%d_new' % j, 'Gc<JsObject>', gc('f%d_newobj' % j)),
+                T['vm_call_stack']: VecV([Agg('struct', 'CallFrame', {CF['saved_env']: EnumV('Option<Gc<JsObject>>', 0, {})}, lazy=True, nm='$f%d_cf' % j)]),
+                T['try_stack']: VecV([Agg('struct', 'TryHandler', {}, lazy=True, nm='$f%d_try' % j)]),
                 T['arguments']: VecV([jsv('f%d_arg' % j)], 'JsValue'), T['new_target']: jsv('f%d_nt' % j),
                 T['exception_value']: opt('f%d_exc' % j, 'Guarded', Opaque('Guarded', z3.Int('$f%d_excval' % j))),
                 T['pending_completion']: opt('f%d_pc' % j, 'PendingCompletion', Opaque('PendingCompletion', z3.Int('$f%d_pcval' % j))),
@@ -150,7 +152,7 @@ def run(rep):
         vm = Agg('struct', 'BytecodeVM', {
             V['registers']: VecV([jsv('r0')], 'JsValue'), V['call_stack']: VecV([cframe], 'CallFrame'), V['saved_env_stack']: VecV([gc('scope0')]),
             V['trampoline_stack']: VecV(frames, 'TrampolineFrame'), V['this_value']: jsv('this'), V['arguments']: VecV([jsv('arg0')], 'JsValue'),
-            V['try_stack']: VecV(()), V['new_target']: jsv('nt'), V['exception_value']: opt('exc', 'Guarded', exc_guarded),
+            V['try_stack']: VecV([Agg('struct', 'TryHandler', {}, lazy=True, nm='$try0')]), V['new_target']: jsv('nt'), V['exception_value']: opt('exc', 'Guarded', exc_guarded),
             V['current_constructor']: opt('ctor', 'Gc<JsObject>', gc('ctorobj')),
             V['pending_completion']: opt('pc', 'PendingCompletion', Opaque('PendingCompletion', z3.Int('$pcval'))),
         }, lazy=True, nm='$vm')
